@@ -711,6 +711,81 @@ fn c13_l2_pino_insert_above() {
     seq_pino(63, 70)
 }
 
+/// L2 history, Anchor: initialise 1, then 0 below it (first slots)
+// @verif prop=C13 tier=thorough timeout=900 large
+#[kani::proof]
+#[kani::unwind(800)]
+#[kani::stub(<[u8]>::rotate_right, model_rotate_right)]
+#[kani::stub(<[u8]>::rotate_left, model_rotate_left)]
+#[kani::stub(alloc::fmt::format, stub_format)]
+#[kani::stub(<anchor_lang::error::Error as core::convert::From<std::io::Error>>::from, stub_err_from_io)]
+#[kani::stub(<anchor_lang::error::Error as core::convert::From<::whirlpool::errors::ErrorCode>>::from, stub_err_from_code)]
+fn c13_l2_anchor_insert_below_first_slots() {
+    seq_anchor(1, 0)
+}
+
+/// L2 history, Anchor: initialise 64, then 63 below it (across the 64-bit bitmap word boundary)
+// @verif prop=C13 tier=thorough timeout=900 large
+#[kani::proof]
+#[kani::unwind(800)]
+#[kani::stub(<[u8]>::rotate_right, model_rotate_right)]
+#[kani::stub(<[u8]>::rotate_left, model_rotate_left)]
+#[kani::stub(alloc::fmt::format, stub_format)]
+#[kani::stub(<anchor_lang::error::Error as core::convert::From<std::io::Error>>::from, stub_err_from_io)]
+#[kani::stub(<anchor_lang::error::Error as core::convert::From<::whirlpool::errors::ErrorCode>>::from, stub_err_from_code)]
+fn c13_l2_anchor_insert_below_word_boundary() {
+    seq_anchor(64, 63)
+}
+
+/// L2 history, Anchor: initialise 87, then 86 below it (last two slots)
+// @verif prop=C13 tier=thorough timeout=900 large
+#[kani::proof]
+#[kani::unwind(800)]
+#[kani::stub(<[u8]>::rotate_right, model_rotate_right)]
+#[kani::stub(<[u8]>::rotate_left, model_rotate_left)]
+#[kani::stub(alloc::fmt::format, stub_format)]
+#[kani::stub(<anchor_lang::error::Error as core::convert::From<std::io::Error>>::from, stub_err_from_io)]
+#[kani::stub(<anchor_lang::error::Error as core::convert::From<::whirlpool::errors::ErrorCode>>::from, stub_err_from_code)]
+fn c13_l2_anchor_insert_below_last_slots() {
+    seq_anchor(87, 86)
+}
+
+/// L2 history, Pinocchio: initialise 1, then 0 below it (first slots)
+// @verif prop=C13 tier=thorough timeout=900 large
+#[kani::proof]
+#[kani::unwind(800)]
+#[kani::stub(<[u8]>::rotate_right, model_rotate_right)]
+#[kani::stub(<[u8]>::rotate_left, model_rotate_left)]
+#[kani::stub(alloc::fmt::format, stub_format)]
+#[kani::stub(<::whirlpool::pinocchio::errors::UnifiedError as core::convert::From<::whirlpool::errors::ErrorCode>>::from, stub_unified_from_code)]
+fn c13_l2_pino_insert_below_first_slots() {
+    seq_pino(1, 0)
+}
+
+/// L2 history, Pinocchio: initialise 64, then 63 below it (across the 64-bit bitmap word boundary)
+// @verif prop=C13 tier=thorough timeout=900 large
+#[kani::proof]
+#[kani::unwind(800)]
+#[kani::stub(<[u8]>::rotate_right, model_rotate_right)]
+#[kani::stub(<[u8]>::rotate_left, model_rotate_left)]
+#[kani::stub(alloc::fmt::format, stub_format)]
+#[kani::stub(<::whirlpool::pinocchio::errors::UnifiedError as core::convert::From<::whirlpool::errors::ErrorCode>>::from, stub_unified_from_code)]
+fn c13_l2_pino_insert_below_word_boundary() {
+    seq_pino(64, 63)
+}
+
+/// L2 history, Pinocchio: initialise 87, then 86 below it (last two slots)
+// @verif prop=C13 tier=thorough timeout=900 large
+#[kani::proof]
+#[kani::unwind(800)]
+#[kani::stub(<[u8]>::rotate_right, model_rotate_right)]
+#[kani::stub(<[u8]>::rotate_left, model_rotate_left)]
+#[kani::stub(alloc::fmt::format, stub_format)]
+#[kani::stub(<::whirlpool::pinocchio::errors::UnifiedError as core::convert::From<::whirlpool::errors::ErrorCode>>::from, stub_unified_from_code)]
+fn c13_l2_pino_insert_below_last_slots() {
+    seq_pino(87, 86)
+}
+
 /// twin: the false claim "byte_offset(slot) == slot for every bitmap" must be refuted (an initialised earlier slot adds 112)
 // @verif prop=C13 tier=quick timeout=300 twin
 #[kani::proof]
